@@ -1128,7 +1128,7 @@ impl Prop for C18 {
         run(c, o)
     }
     fn rule() -> &'static str {
-        "proptest, two families (31:1). (a) histories of <=30 ops over services {\"\",a,b} x statuses {UNKNOWN,SERVING,NOT_SERVING}: Set (set_service_status with &str / String on a cloned reporter / set_serving::<S> / set_not_serving::<S>), Clear, Check, Watch (<=4 live watchers; pull-driven or eagerly pumped by a task), Next (drain until pending), Drop; free histories plus woven skeletons (watch..clear..set on one service; two watchers of one service with 1-3 updates); driven through the generated HealthClient in-process on a paused current_thread runtime (seeded), quiesce (1 ms virtual) after each op; all services checked and all watchers drained at the end. Oracle: reference model service -> generations -> values set; Check = latest or NOT_FOUND (\"\" SERVING by default); a watcher's reports are a subsequence of [status at subscription] ++ later values of its generation, first report = status at subscription when no update intervened, after each drain the last report = latest status (registered) or the stream has ended with last report = last status before the clear (cleared); Watch of an unregistered name = NOT_FOUND. (b) stress: multi-thread runtime (2-4 workers), 2-4 writers (<=12 updates each, optional read-your-write Check, partitioned or shared services; a/b optionally unregistered at the start), 2-4 watchers subscribing concurrently, each script run 12 times; synchronisation by barrier/join/channel only, drains by polling with a no-op waker after the writers were joined; invariants only (Watch rejected only with NOT_FOUND and only for a service that starts unregistered; reports were set; single-writer services: subsequence + read-your-writes; after joining writers Check = a writer's last update and every watcher's last report = Check; after clear streams end without further items, Check = NOT_FOUND). Non-trivial: (a) a Set re-registers a cleared service while a watcher of it is alive, or >=2 open watchers of one service; (b) >=2 watchers and >=1 update. Distinct = distinct serialised case. The three services are the empty name, `a` and the free-form name `1st/pay-ments..v2 \u{e9}`. (The ordinary name is now the health service's own, grpc.health.v1.Health: nothing is registered for it unless set.)"
+        "proptest, two families (31:1). (a) histories of <=30 ops over services {\"\",a,b} x statuses {UNKNOWN,SERVING,NOT_SERVING}: Set (set_service_status with &str / String on a cloned reporter / set_serving::<S> / set_not_serving::<S>), Clear, Check, Watch (<=4 live watchers; pull-driven or eagerly pumped by a task), Next (drain until pending), Drop; free histories plus woven skeletons (watch..clear..set on one service; two watchers of one service with 1-3 updates); driven through the generated HealthClient in-process on a paused current_thread runtime (seeded), quiesce (1 ms virtual) after each op; all services checked and all watchers drained at the end. Oracle: reference model service -> generations -> values set; Check = latest or NOT_FOUND (\"\" SERVING by default); a watcher's reports are a subsequence of [status at subscription] ++ later values of its generation, first report = status at subscription when no update intervened, after each drain the last report = latest status (registered) or the stream has ended with last report = last status before the clear (cleared); Watch of an unregistered name = NOT_FOUND. (b) stress: multi-thread runtime (2-4 workers), 2-4 writers (<=12 updates each, optional read-your-write Check, partitioned or shared services; a/b optionally unregistered at the start), 2-4 watchers subscribing concurrently, each script run 12 times; synchronisation by barrier/join/channel only, drains by polling with a no-op waker after the writers were joined; invariants only (Watch rejected only with NOT_FOUND and only for a service that starts unregistered; reports were set; single-writer services: subsequence + read-your-writes; after joining writers Check = a writer's last update and every watcher's last report = Check; after clear streams end without further items, Check = NOT_FOUND). Non-trivial: (a) a Set re-registers a cleared service while a watcher of it is alive, or >=2 open watchers of one service; (b) >=2 watchers and >=1 update. Distinct = distinct serialised case. The three services are the empty name, `a` and the free-form name `1st/pay-ments..v2 \u{e9}`. (The ordinary name is now the health service's own, grpc.health.v1.Health: nothing is registered for it unless set.) (The free-form name is 300 bytes long.)"
     }
     fn assumptions() -> Vec<String> {
         vec![
